@@ -351,6 +351,11 @@ def _struct_common(ck, F, which):
     ck.rule("RE-ENTRY", "relocated cells are moved as values, not re-entered as display text", floor=3)
     guarded(ck, rs.reentry, F)
     guarded(ck, rs.value_move, F)
+    ck.rule("STYLE-LAST", "move_cell copies the source style after every re-entry of the content", floor=2)
+    guarded(ck, rs.style_last, F)
+    import rules_attr as ra_
+    ck.rule("WIDTH-ACTUAL", "stored column widths never derive from the displayed width", floor=4)
+    guarded(ck, ra_.width_actual, F)
 
 
 def c12(ck, F, tier):
